@@ -124,6 +124,10 @@ class Chan:
         self.unver_since_held = False
         self.max_deadline = None  # max data deadline over unsuppressed publishes (s)
         self.saw_ver_suppressed = False
+        self.max_meta_deadline = None  # max meta deadline over unsuppressed publishes and reads (s)
+        self.saw_ver_suppressed_delta = False
+        self.last_store_s = None     # second of the last stored publish (a later sweeper tick is needed)
+        self.last_meta_touch_s = None  # second of the last unsuppressed meta refresh
 
 
 class Oracle:
@@ -177,6 +181,27 @@ class Oracle:
         if m > 0:
             r = self.now_s + m // 1000
             c.r_dead = r if (not suppressed or c.r_dead is None) else min(c.r_dead, r)
+            if not suppressed:
+                c.max_meta_deadline = r if c.max_meta_deadline is None else max(c.max_meta_deadline, r)
+                c.last_meta_touch_s = self.now_s
+
+    def c19_meta_outlived(self, op, ep, c):
+        """suppressed publishes change nothing — also not the lifetime of the stream metadata.  Called with
+        the epoch an operation reports, before that operation's own refresh is recorded."""
+        if self.mode != "c19":
+            return
+        if self.fresh(ep):
+            c.max_meta_deadline, c.saw_ver_suppressed_delta = None, False
+            return
+        if (ep != 0 and c.saw_ver_suppressed_delta and c.max_meta_deadline is not None
+                and self.now_s >= c.max_meta_deadline and self.now_s > c.last_meta_touch_s):
+            c.saw_ver_suppressed_delta = False
+            self.soft.append(Violation(
+                "suppressed-delta-publish-extends-meta-ttl",
+                f"stream of `{op['ch']}` still has epoch {ep} at second {self.now_s} although every meta-TTL "
+                f"deadline set by an unsuppressed publish or a read ended at {c.max_meta_deadline}: a "
+                f"version-suppressed publish with UseDelta refreshed the meta deadline (its delta read precedes the "
+                f"version check)"))
 
     def fresh(self, ep):
         return ep == self.max_ep + 1
@@ -210,6 +235,7 @@ class Oracle:
     def op_get(self, op, out):
         r = parse_get_out(out)
         c = self.chan(op["ch"])
+        self.c19_meta_outlived(op, r["ep"], c)
         self.touch_meta(c, op["meta"])
         new = []
         wrapped = False
@@ -231,6 +257,10 @@ class Oracle:
         if not new:
             raise Violation("history", f"history result `{out}` for `{_short(op)}` is not the retained suffix "
                             f"filtered by since/limit/direction of any reachable stream state {_cands(c.cands)}")
+        if any(x is not None and x[2] for x in c.cands) and all(not x[2] for x in new):
+            self.count("observed:history-expired-or-removed")
+        if any(x is not None for x in c.cands) and self.fresh(r["ep"]):
+            self.count("observed:stream-dropped-new-epoch")
         c.cands = _dedup(new)
         self.see(r["ep"])
         if wrapped and all(x is not None and hist_spec(x[2], x[1], op["since"], op["limit"], op["rev"]) != r["pubs"]
@@ -271,7 +301,10 @@ class Oracle:
                                 f"position of any reachable stream state {_cands(c.cands)}")
             c.cands = _dedup(new)
             c.e_dead = e_new if c.e_dead is None else min(c.e_dead, e_new)
+            self.c19_meta_outlived(op, r["ep"], c)
             self.touch_meta(c, op["meta"], suppressed=True)
+            if op["delta"]:
+                c.saw_ver_suppressed_delta = True
             self.count("pub-ver-suppressed")
             if self.mode == "c19":
                 self.c19_version(op, r, c, suppressed=True)
@@ -304,10 +337,14 @@ class Oracle:
             raise Violation("position", f"stored publish returned `{out}`: offset/epoch/broadcast not explained by "
                             f"any reachable stream state {_cands(c.cands)} (offsets must continue at top+1 in the "
                             f"same epoch, or start at 1 in a fresh epoch after the metadata was discarded)")
+        if any(x is not None for x in c.cands) and self.fresh(r["ep"]):
+            self.count("observed:stream-dropped-new-epoch")
         c.cands = _dedup(new)
         self.see(r["ep"])
         c.e_dead = e_new
         c.max_deadline = e_new if c.max_deadline is None else max(c.max_deadline, e_new)
+        c.last_store_s = self.now_s
+        self.c19_meta_outlived(op, r["ep"], c)
         self.touch_meta(c, op["meta"])
         self.count("pub-stored")
         if self.mode == "c19":
@@ -389,7 +426,8 @@ class Oracle:
 
     def c19_after_get(self, op, r, c):
         """suppressed publishes change nothing — also not the history's lifetime."""
-        if r["pubs"] and c.saw_ver_suppressed and c.max_deadline is not None and self.now_s >= c.max_deadline:
+        if (r["pubs"] and c.saw_ver_suppressed and c.max_deadline is not None and self.now_s >= c.max_deadline
+                and self.now_s > c.last_store_s):
             self.soft.append(Violation(
                 "suppressed-publish-extends-history-ttl",
                 f"history of `{op['ch']}` still has publications at second {self.now_s} although the "
@@ -572,7 +610,8 @@ def run_hist(ctx, mode, exe, corpus_path, findings_path, n_quick, n_thorough, no
     else:
         try:
             for f in json.load(open(findings_path)).get("findings", []):
-                scenarios.append(("finding:" + f["id"], f["replay"]["ops"]))
+                if f.get("status") == "known":   # fixed ones live on in the corpus: a regression is a VIOLATION
+                    scenarios.append(("finding:" + f["id"], f["replay"]["ops"]))
         except FileNotFoundError:
             pass
         corpus = [l.rstrip("\n") for l in open(corpus_path) if l.strip() and not l.startswith("#")]
